@@ -152,9 +152,10 @@ public:
     {
         if (ptr_ == other.ptr_)
             return *this;
-        inc_reference(other.ptr_);
-        dec_reference();
-        ptr_ = other.ptr_;
+        // other may be a member of the object released here (p = p->next):
+        // take the new reference first, release the old object last.
+        CountingPtr tmp(other);
+        swap(tmp);
         return *this;
     }
 
@@ -167,9 +168,10 @@ public:
     {
         if (ptr_ == other.ptr_)
             return *this;
-        inc_reference(other.ptr_);
-        dec_reference();
-        ptr_ = other.ptr_;
+        // other may be a member of the object released here (p = p->next):
+        // take the new reference first, release the old object last.
+        CountingPtr tmp(other);
+        swap(tmp);
         return *this;
     }
 
@@ -178,9 +180,11 @@ public:
     {
         if (ptr_ == other.ptr_)
             return *this;
-        dec_reference();
-        ptr_ = other.ptr_;
-        other.ptr_ = nullptr;
+        // other may be a member of the object released here
+        // (p = std::move(p->next)): steal its pointer first, release the old
+        // object last.
+        CountingPtr tmp(std::move(other));
+        swap(tmp);
         return *this;
     }
 
@@ -192,9 +196,11 @@ public:
     {
         if (ptr_ == other.ptr_)
             return *this;
-        dec_reference();
-        ptr_ = other.ptr_;
-        other.ptr_ = nullptr;
+        // other may be a member of the object released here
+        // (p = std::move(p->next)): steal its pointer first, release the old
+        // object last.
+        CountingPtr tmp(std::move(other));
+        swap(tmp);
         return *this;
     }
 
